@@ -14,7 +14,8 @@ from sa.alias import AliasModel, FRESH
 
 EXPLANATION = (
     "Decides the history half of the quantifier: (R1) each reachability cache is written only by its owner method (and reset in the "
-    "builder), keyed by the query node, with the value that is returned; (R2) query methods of the s-t graph classes do not mutate any "
+    "builder), keyed by the query node, with the value that is returned; a parameterised query that keeps its answer in a plain attribute "
+    "returns it only under a test that involves every parameter (R1c); (R2) query methods of the s-t graph classes do not mutate any "
     "object held in a self attribute other than their own cache entry (alias/effect analysis: e.g. accumulating a result in place into a "
     "per-SCC index would corrupt later answers), and no in-package caller mutates a set returned by a substrate query (cached sets are "
     "returned by reference); (R3) the augmented graphs are frozen as the last step of construction and no graph mutator is called on them "
@@ -88,6 +89,52 @@ def cache_ownership(prog: Program, rep, RID: str):
                 rep.violation("C17.R1", key, why, ownf.loc())
 
 
+def unkeyed_caches(prog: Program, rep, RID: str):
+    """A parameterised query that stores its result in a plain attribute and hands that attribute back must do so only under a
+    test that mentions every parameter (after substituting single-assignment locals): otherwise the first answer is returned
+    for all later arguments."""
+    from rules.val import path_conditions
+    from rules.common import local_single_defs, substitute_locals
+    n = 0
+    for cname in SUBSTRATE:
+        cls = prog.cls(cname)
+        for m, f in cls.methods.items():
+            params = [p for p in f.params[1:]]
+            if not params or BUILDERS.match(m):
+                continue
+            stored = set()
+            for st in walk_no_nested(f.node):
+                if isinstance(st, ast.Assign):
+                    for t in st.targets:
+                        d = dotted(t)
+                        if d and d.startswith("self.") and d.count(".") == 1:
+                            stored.add(d)
+            defs = local_single_defs(f.node)
+            for r in walk_no_nested(f.node):
+                if isinstance(r, ast.Return) and r.value is not None and dotted(r.value) in stored:
+                    # is it a cache *read* (a return that can be reached without the store on the same path)?
+                    stores_before = [st for st in walk_no_nested(f.node) if isinstance(st, ast.Assign) and any(dotted(t) == dotted(r.value) for t in st.targets)
+                                     and st.lineno < r.lineno]
+                    conds = path_conditions(f.node, r)
+                    if stores_before and not conds:
+                        continue        # straight-line `self.x = v; return self.x`
+                    n += 1
+                    mentioned = set()
+                    for t, pol in conds:
+                        tt = substitute_locals(t, defs)
+                        mentioned |= {x.id for x in ast.walk(tt) if isinstance(x, ast.Name)}
+                    missing = [p for p in params if p not in mentioned]
+                    key = f"{cname}.{m}:cached-return:{dotted(r.value)}"
+                    if stores_before and not missing:
+                        continue
+                    if missing and not stores_before:
+                        rep.violation(RID, key, f"`return {dotted(r.value)}` hands back a stored answer under {[norm(t) for t, _ in conds]} without looking at "
+                                      f"parameter(s) {missing}: the value computed for the first arguments answers every later query", f.loc(r))
+                    elif not stores_before:
+                        rep.ok(RID, key, f"cached answer returned only under a test on {params}", f.loc(r), sample={"method": f"{cname}.{m}", "guards": [norm(t) for t, _ in conds]})
+    return n
+
+
 def query_purity(prog: Program, rep, RID: str, am: AliasModel):
     n = 0
     for cname in SUBSTRATE:
@@ -156,6 +203,8 @@ def check(prog: Program, rep):
     am = AliasModel(prog)
     rep.rule("C17.R1", "cache ownership", floor=9)
     cache_ownership(prog, rep, "C17.R1")
+    rep.rule("C17.R1c", "attribute caches of parameterised queries are keyed by (a test on) every parameter", floor=3)
+    unkeyed_caches(prog, rep, "C17.R1c")
     rep.rule("C17.R2", "queries do not mutate substrate state; cached results are not mutated by callers", floor=30)
     query_purity(prog, rep, "C17.R2", am)
     rep.rule("C17.R3", "frozen substrate", floor=3)
